@@ -231,6 +231,13 @@ func BuildZero(a *ref.AP, t *sim.Tape) (mq.Packet, []Op, error) {
 	return buildOn(Zero(a.Type), a, t, false)
 }
 
+// AllowWillEdit: whether Build may finish a will AFTER attaching it (through
+// what Will() returns). The round-trip properties (C01, C02) exclude "a will
+// message that is modified after it was attached" from their domain, so the
+// checks that decide them leave this off; props.Configure switches it on for the
+// checks whose subject is independent of that domain (C11, C13, C14).
+var AllowWillEdit = false
+
 func buildOn(p mq.Packet, a *ref.AP, t *sim.Tape, ctor bool) (mq.Packet, []Op, error) {
 	ops := OpsFor(a)
 	if ctor && t != nil && a.Type == ref.Publish && t.Bool(1, 4) {
@@ -270,7 +277,7 @@ func buildOn(p mq.Packet, a *ref.AP, t *sim.Tape, ctor bool) (mq.Packet, []Op, e
 			var out []Op
 			nf := 0 // filters added so far
 			for _, o := range ops {
-				if o.Kind == "filters" && a.Type == ref.Subscribe && len(o.Fs) == 1 && t.Bool(1, 2) {
+				if o.Kind == "filters" && a.Type == ref.Subscribe && len(o.Fs) == 1 && t.Bool(1, 2) && Sem().FiltersLive {
 					// add the filter under another name, then correct it in place
 					// through the slice Filters() returns
 					out = append(out, Op{Kind: "filters", Fs: []ref.Filter{{Name: append([]byte("decoy/"), o.Fs[0].Name...), Opts: o.Fs[0].Opts ^ 1}}})
@@ -291,7 +298,7 @@ func buildOn(p mq.Packet, a *ref.AP, t *sim.Tape, ctor bool) (mq.Packet, []Op, e
 			ops = out
 		}
 	}
-	if t != nil && a.Type == ref.Connect && t.Bool(1, 3) {
+	if t != nil && a.Type == ref.Connect && t.Bool(1, 3) && Sem().WillLive && AllowWillEdit {
 		// the will is attached with only some of its user properties; the last ones
 		// are added afterwards through what Will() returns (the attached message)
 		for i := len(ops) - 1; i >= 0; i-- {
